@@ -448,5 +448,62 @@ theorem runPlugins_sets_route (req : Json) (res : SearchResult) (cfg : Traversal
           exact k2 (by simp [ho])
       · exact ih hm r1 r' h
 
+/-- invariants of the response are proved plugin by plugin -/
+theorem runPlugins_inv (req : Json) (res : SearchResult) (P : Resp → Prop) (all : List Plugin)
+    (hstep : ∀ p ∈ all, ∀ r r', P r → pluginStep req res p r = .ok r' → P r') :
+    ∀ (ps : List Plugin), (∀ p ∈ ps, p ∈ all) → ∀ r r', P r → runPlugins req res ps r = .ok r' → P r' := by
+  intro ps
+  induction ps with
+  | nil => intro _ r r' hP h; simp only [runPlugins] at h; injection h with h; subst h; exact hP
+  | cons q qs ih =>
+    intro hsub r r' hP h
+    rw [runPlugins] at h
+    cases hq : pluginStep req res q r with
+    | error y => simp [hq] at h
+    | ok r1 =>
+      simp only [hq] at h
+      exact ih (fun p hp => hsub p (List.mem_cons_of_mem _ hp)) r1 r'
+        (hstep q (hsub q List.mem_cons_self) r r1 hP hq) h
+
+theorem pluginStep_summary (req : Json) (res : SearchResult) (r r' : Resp)
+    (h : pluginStep req res .summary r = .ok r') : r' = summaryProcess res r := by
+  simp only [pluginStep] at h
+  injection h with h
+  exact h.symm
+
+theorem pluginStep_uuid (req : Json) (res : SearchResult) (table : Uuids) (r r' : Resp)
+    (h : pluginStep req res (.uuid table) r = .ok r') :
+    ∃ ou du, uuidLookup table (.obj [("request", req)]) = .ok (ou, du) ∧
+      r' = { r with originUuid := some ou, destinationUuid := some du } := by
+  simp only [pluginStep] at h
+  cases hu : uuidLookup table (.obj [("request", req)]) with
+  | error y => simp [hu] at h
+  | ok p =>
+    obtain ⟨a, b⟩ := p
+    simp only [hu] at h
+    injection h with h
+    exact ⟨a, b, rfl, h.symm⟩
+
+theorem uuidLookup_ok (u : Uuids) (out : Json) (ou du : String) (h : uuidLookup u out = .ok (ou, du)) :
+    ∃ o d, getOdVertexIds out = .ok (o, d) ∧ u o = some ou ∧ u d = some du := by
+  unfold uuidLookup at h
+  cases hg : getOdVertexIds out with
+  | error x => simp [hg] at h
+  | ok p =>
+    obtain ⟨o, d⟩ := p
+    simp only [hg] at h
+    cases ho : u o with
+    | none => simp [ho] at h
+    | some a =>
+      simp only [ho] at h
+      cases hd : u d with
+      | none => simp [hd] at h
+      | some b =>
+        simp only [hd] at h
+        injection h with h
+        injection h with h1 h2
+        subst h1; subst h2
+        exact ⟨o, d, rfl, ho, hd⟩
+
 end Output
 end Compass
